@@ -1,4 +1,14 @@
 import LitexModel.Bridge.Num
+import LitexModel.Bridge.Adapter
+import LitexModel.Bridge.NumChain
 open Litex Litex.Driver Litex.Bridge
 
-def main : IO Unit := mainLoop openMachine (fun _ => none)
+/-- Pure calls: `chain …` (`SoCBusHandler.add_adapter` selection), `chainbyte …` (byte map of a chain),
+    `conv dwFrom dwTo` (down / up / direct choice of the converter wrappers); see `LitexModel/Bridge/Adapter.lean`. -/
+def call : List String → Option String
+  | "chain" :: rest => (parseNats rest).bind Adapter.callChain
+  | "chainbyte" :: rest => (parseNats rest).bind Adapter.callChainByte
+  | "conv" :: rest => (parseNats rest).bind Adapter.callConv
+  | _ => none
+
+def main : IO Unit := mainLoop openChain call
